@@ -20,8 +20,8 @@ ASSUMPTIONS = [
     "each detection is one opaque atom {Fi: 'v'}; only selectors that match >= 1 detection are judged",
     "trees are the reference (conditions are printed from trees, no second parser)",
 ]
-POOL = ["sel", "flt", "sel_a", "s-1", "notepad", "android", "oracle", "all_x", "anyone", "of_x", "them2", "a1", "nota", "or_1", "and-x", "Not", "1x", "x1of", "not-x", "or-1", "1-of"]
-POOL_HAZ = ["sel", "notepad", "android", "oracle", "all_x", "of_x", "them2", "Not", "not-x", "1x"]
+POOL = ["sel", "flt", "sel_a", "s-1", "notepad", "android", "oracle", "all_x", "anyone", "of_x", "them2", "a1", "nota", "or_1", "and-x", "Not", "1x", "x1of", "not-x", "or-1", "1-of", "con", "on", "c", "conditions"]
+POOL_HAZ = ["sel", "notepad", "android", "oracle", "all_x", "of_x", "them2", "Not", "not-x", "1x", "con"]
 NAMESETS = [
     ["sel", "sel_a", "flt_a", "_u"],
     ["sel1", "sel2", "_sel3", "_u"],
